@@ -17,6 +17,9 @@ CONSTANTS
   Edges = FALSE
   KSps = {"lower"}
   MKs = {"k"}
+  Unit = 2
+  Multi = FALSE
+  XVs = {"one"}
   Depth = 2
   Emit = FALSE
 INVARIANTS InvNoPanic InvCompleteness InvSoundness InvValues InvHistoryIndependent InvClassesDisjoint
